@@ -224,7 +224,7 @@ impl RsiRef {
         if !(den.hi > 0.0) {
             return None;
         }
-        Some(Cond { val: ue.mul_f(100.0).div(den), c: self.big / den.to_f64() })
+        Some(Cond { val: ue.div(den).mul_f(100.0), c: self.big / den.to_f64() })
     }
 }
 
@@ -239,7 +239,7 @@ pub fn fast_stoch_ref(highs: &[f64], lows: &[f64], close: f64) -> Cond {
     let den = DD::sum2(hi, -lo);
     let num = DD::sum2(close, -lo);
     let big = hi.abs().max(lo.abs()).max(close.abs());
-    Cond { val: num.mul_f(100.0).div(den), c: big / den.to_f64().abs() }
+    Cond { val: num.div(den).mul_f(100.0), c: big / den.to_f64().abs() }
 }
 
 /// RateOfChange over history since reset (hist non-empty)
@@ -250,7 +250,7 @@ pub fn roc_ref(hist: &[f64], n: usize) -> Option<Cond> {
     if prev == 0.0 {
         return None;
     }
-    let val = DD::sum2(x, -prev).mul_f(100.0).div_f(prev);
+    let val = DD::sum2(x, -prev).div_f(prev).mul_f(100.0);
     Some(Cond { val, c: x.abs().max(prev.abs()) / prev.abs() })
 }
 
